@@ -156,6 +156,8 @@ pub fn render(q: &Query) -> String {
 #[derive(Debug, Clone, PartialEq)]
 enum Val {
     Int(i64),
+    Flt(f32),
+    Dbl(f64),
     Str(String),
     Bool(bool),
     Other,
@@ -163,6 +165,9 @@ enum Val {
 fn val(t: &ATerm) -> Val {
     match t {
         ATerm::Lit(dt, None, lex) if dt == &format!("{XSD}integer") => lex.parse::<i64>().map(Val::Int).unwrap_or(Val::Other),
+        // (only plain decimal / exponent lexical forms are used for float and double by the generators)
+        ATerm::Lit(dt, None, lex) if dt == &format!("{XSD}float") => lex.parse::<f32>().map(Val::Flt).unwrap_or(Val::Other),
+        ATerm::Lit(dt, None, lex) if dt == &format!("{XSD}double") => lex.parse::<f64>().map(Val::Dbl).unwrap_or(Val::Other),
         ATerm::Lit(dt, None, lex) if dt == XSD_STRING => Val::Str(lex.clone()),
         ATerm::Lit(dt, None, lex) if dt == &format!("{XSD}boolean") => match lex.as_str() {
             "true" | "1" => Val::Bool(true),
@@ -182,6 +187,8 @@ fn ebv(t: &ATerm) -> Option<bool> {
             }
             match val(t) {
                 Val::Int(i) => Some(i != 0),
+                Val::Flt(x) => Some(x != 0.0 && !x.is_nan()),
+                Val::Dbl(x) => Some(x != 0.0 && !x.is_nan()),
                 Val::Str(s) => Some(!s.is_empty()),
                 Val::Bool(b) => Some(b),
                 Val::Other => {
@@ -209,8 +216,27 @@ fn b(x: bool) -> ATerm {
 fn is_lit(t: &ATerm) -> bool {
     matches!(t, ATerm::Lit(..))
 }
+/// numeric comparison with XPath type promotion: integer -> float -> double
+fn num_cmp(a: &Val, c: &Val) -> Option<Option<std::cmp::Ordering>> {
+    use Val::*;
+    Some(match (a, c) {
+        (Int(x), Int(y)) => Some(x.cmp(y)),
+        (Flt(x), Flt(y)) => x.partial_cmp(y),
+        (Int(x), Flt(y)) => (*x as f32).partial_cmp(y),
+        (Flt(x), Int(y)) => x.partial_cmp(&(*y as f32)),
+        (Dbl(x), Dbl(y)) => x.partial_cmp(y),
+        (Dbl(x), Flt(y)) => x.partial_cmp(&(*y as f64)),
+        (Flt(x), Dbl(y)) => (*x as f64).partial_cmp(y),
+        (Dbl(x), Int(y)) => x.partial_cmp(&(*y as f64)),
+        (Int(x), Dbl(y)) => (*x as f64).partial_cmp(y),
+        _ => return None,
+    })
+}
 /// RDFterm-equal extended with the value-based equalities of the operator table
 fn eq(a: &ATerm, c: &ATerm) -> Option<bool> {
+    if let Some(o) = num_cmp(&val(a), &val(c)) {
+        return Some(o == Some(std::cmp::Ordering::Equal));
+    }
     match (val(a), val(c)) {
         (Val::Int(x), Val::Int(y)) => Some(x == y),
         (Val::Str(x), Val::Str(y)) => Some(x == y),
@@ -242,7 +268,7 @@ pub fn eval(e: &Expr, s: &Sol) -> Option<ATerm> {
                 UNSPECIFIED.with(|u| u.set(true));
                 None
             }
-            (Val::Int(p), Val::Int(q)) => Some(b(p < q)),
+            (p, q) if num_cmp(&p, &q).is_some() => Some(b(num_cmp(&p, &q).unwrap() == Some(std::cmp::Ordering::Less))),
             (Val::Str(p), Val::Str(q)) => Some(b(p < q)),
             (Val::Bool(p), Val::Bool(q)) => Some(b(!p & q)),
             _ => None,
@@ -286,6 +312,11 @@ pub fn eval(e: &Expr, s: &Sol) -> Option<ATerm> {
         },
         Add(x, y) => match (val(&eval(x, s)?), val(&eval(y, s)?)) {
             (Val::Int(p), Val::Int(q)) => Some(ATerm::typed(&(p + q).to_string(), &format!("{XSD}integer"))),
+            (p, q) if num_cmp(&p, &q).is_some() => {
+                // the lexical form of a float/double sum is implementation-defined: no verdict
+                UNSPECIFIED.with(|u| u.set(true));
+                None
+            }
             _ => None,
         },
     }
